@@ -24,3 +24,40 @@ CHECKS["C18"] = dict(
         P("seq", "unit", "TestC18Seq", dict(checks=2000, shards=4, timeout=600), dict(checks=200000, shards=16, timeout=3000)),
     ],
 )
+
+CHECKS["C19"] = dict(
+    level="exploration",
+    rule=("part 'round': 1-6 rapid-generated records (key = arbitrary bytes 0..4096 incl. empty, canonical UUIDs incl. nil/max, seq from a boundary set or any u64) "
+          "-> file repository Set over a recording key-value fake -> stored bytes compared with an independent reference encoder "
+          "(8-byte LE seq | 16-byte tx id | 16-byte content id | raw key, Badger key file/<content id>) -> GetAll -> records compared; "
+          "non-trivial = some key contains a byte >= 0x80 or NUL. part 'bytes': arbitrary byte strings -> GetAll must not panic, must reject < 40 bytes, "
+          "must equal the reference decoder otherwise; non-trivial = length within 36..44 or below 40. part 'lengths': every length 0..80 x 3 fills. "
+          "part 'golden': 4 hand-written vectors of the release layout, decoded and re-encoded. part 'fixture' (engine seq): a database directory written by the pinned revision "
+          "is opened by the current tree. thorough adds native go fuzzing of the decoder with the same oracle."),
+    assumptions=["transaction and content ids are canonical lower-case UUID strings (every producer in fs_db uses uuid.NewString or the nil UUID)"],
+    parts=[
+        P("round", "unit", "TestC19Round", dict(checks=5000, shards=4, timeout=600), dict(checks=1000000, shards=16, timeout=3000)),
+        P("bytes", "unit", "TestC19Bytes", dict(checks=5000, shards=4, timeout=600), dict(checks=1000000, shards=16, timeout=3000)),
+        P("lengths", "unit", "TestC19Lengths", dict(checks=1, shards=1), dict(checks=1, shards=1), rapid=False),
+        P("golden", "unit", "TestC19Golden", dict(checks=1, shards=1), dict(checks=1, shards=1), rapid=False),
+    ],
+)
+
+CHECKS["C20"] = dict(
+    level="exploration",
+    rule=("part 'parse': per setting (PORT, DB_PATH, DIR_COUNT, ROOT_DIRS, GC_PERIOD, NUM_WORKERS, SEND_DURATION) a state from "
+          "{absent, file, env, both, env-empty, env-empty+file, env-malformed, env-malformed+file, file-malformed, file-malformed+env} (malformed only for numeric/duration settings) "
+          "and values; the YAML text is rendered by the harness, the environment set with Setenv, then config.ParseConfig is called. "
+          "Oracle: env if set and non-empty, else file, else documented default; malformed value in a used position => error; "
+          "a malformed file value overridden by a good env value may be an error or the env value. non-trivial = >= 2 different states incl. one where file and env are both involved. "
+          "part 'states': all pairs of (setting,state) quick / all combinations of states over the seven settings thorough (exhaustive: one fixed value per state). "
+          "part 'valid': Storage.Valid over path x 0-3 roots x limits around 100 and u64 extremes."),
+    assumptions=["only unambiguously malformed values are generated (non-numeric text, negative for the unsigned limit, garbage durations); YAML nulls, floats for ints and unit-less durations are library-defined and not generated",
+                 "the process environment is private to the check process; cases run one at a time per process"],
+    exhaustive_when_parts=None,
+    parts=[
+        P("parse", "unit", "TestC20Parse", dict(checks=3000, shards=4, timeout=600), dict(checks=400000, shards=16, timeout=3000)),
+        P("states", "unit", "TestC20States", dict(checks=1, shards=4, split=False, timeout=600), dict(checks=1, shards=16, split=False, timeout=3000), rapid=False),
+        P("valid", "unit", "TestC20Valid", dict(checks=2000, shards=1, timeout=600), dict(checks=200000, shards=4, timeout=3000)),
+    ],
+)
